@@ -1,5 +1,5 @@
 import GateryModel.C20.TVSlots
-/-! The flush interval of a group is delimited by consecutive AFTER-phase notifications of the simulator. -/
+/-! The flush interval of a group is delimited by consecutive flushes of the recorder. -/
 namespace Gatery.C20.TV
 open Gatery.C20
 
@@ -9,62 +9,62 @@ def intervalStart (s0 : Rat) (times : List Rat) : Nat → Rat
   | m + 1 => (times[m]?).getD 0
 
 theorem run_flushTimes : ∀ (evs : List TEv) (j : Nat) (st : St) (lo : Rat), Mono lo evs → ∀ g ∈ run j st evs,
-    ∃ m, g.interval = st.flushes + m ∧ (flushTimes evs)[m]? = some g.stop ∧ g.start = intervalStart st.flushStart (flushTimes evs) m := by
+    ∃ m, g.interval = st.flushes + m ∧ (flushTimes j st evs)[m]? = some g.stop ∧
+      g.start = intervalStart st.flushStart (flushTimes j st evs) m := by
   intro evs
   induction evs with
   | nil => intro j st lo _ g hg; simp [run] at hg
   | cons e evs ih =>
     intro j st lo hm g hg
     simp only [run, List.mem_append] at hg
-    have hflush : ∀ now, Mono now evs → flushTimes (e :: evs) = now :: flushTimes evs → ∀ st', st'.flushes = st.flushes + 1 → st'.flushStart = now →
-        (g ∈ (flush st now).1 ∨ g ∈ run (j + 1) st' evs) →
-        ∃ m, g.interval = st.flushes + m ∧ (flushTimes (e :: evs))[m]? = some g.stop ∧
-          g.start = intervalStart st.flushStart (flushTimes (e :: evs)) m := by
-      intro now hm' hft st' hf hs hg
+    -- a step that flushes up to `stop`
+    have hflush : ∀ stop lo', Mono lo' evs → flushTimes j st (e :: evs) = stop :: flushTimes (j + 1) (step j st e).2 evs →
+        (step j st e).2.flushes = st.flushes + 1 → (step j st e).2.flushStart = stop → (step j st e).1 = (flush st stop).1 →
+        ∃ m, g.interval = st.flushes + m ∧ (flushTimes j st (e :: evs))[m]? = some g.stop ∧
+          g.start = intervalStart st.flushStart (flushTimes j st (e :: evs)) m := by
+      intro stop lo' hm' hft hf hs hgs
       rcases hg with hg | hg
-      · obtain ⟨h1, _, h3, h4, _⟩ := flush_groups st now g hg
+      · rw [hgs] at hg
+        obtain ⟨h1, _, h3, h4, _⟩ := flush_groups st stop g hg
         exact ⟨0, by simp [h1], by simp [hft, h4], by simp [intervalStart, h3]⟩
-      · obtain ⟨m, h1, h2, h3⟩ := ih (j + 1) st' now hm' g hg
+      · obtain ⟨m, h1, h2, h3⟩ := ih (j + 1) _ lo' hm' g hg
         refine ⟨m + 1, by omega, by simpa [hft] using h2, ?_⟩
         rw [h3, hft]
         cases m with
         | zero => simp [intervalStart, hs]
         | succ m => simp [intervalStart]
-    have hkeep : ∀ lo', Mono lo' evs → flushTimes (e :: evs) = flushTimes evs → ∀ st', st'.flushes = st.flushes → st'.flushStart = st.flushStart →
-        g ∈ run (j + 1) st' evs →
-        ∃ m, g.interval = st.flushes + m ∧ (flushTimes (e :: evs))[m]? = some g.stop ∧
-          g.start = intervalStart st.flushStart (flushTimes (e :: evs)) m := by
-      intro lo' hm' hft st' hf hs hg
-      obtain ⟨m, h1, h2, h3⟩ := ih (j + 1) st' lo' hm' g hg
-      exact ⟨m, by omega, by simpa [hft] using h2, by rw [h3, hft, hs]⟩
+    -- a step that does not flush
+    have hkeep : ∀ lo', Mono lo' evs → flushTimes j st (e :: evs) = flushTimes (j + 1) (step j st e).2 evs →
+        (step j st e).2.flushes = st.flushes → (step j st e).2.flushStart = st.flushStart → (step j st e).1 = [] →
+        ∃ m, g.interval = st.flushes + m ∧ (flushTimes j st (e :: evs))[m]? = some g.stop ∧
+          g.start = intervalStart st.flushStart (flushTimes j st (e :: evs)) m := by
+      intro lo' hm' hft hf hs hgs
+      rcases hg with hg | hg
+      · rw [hgs] at hg; simp at hg
+      · obtain ⟨m, h1, h2, h3⟩ := ih (j + 1) _ lo' hm' g hg
+        exact ⟨m, by omega, by simpa [hft] using h2, by rw [h3, hft, hs]⟩
     cases e with
     | powerOn => exact absurd hm (by simp [Mono])
-    | microTick =>
-      rcases hg with hg | hg
-      · simp [step] at hg
-      · exact hkeep lo (by simpa [Mono] using hm) (by simp [flushTimes]) (step j st .microTick).2 (by simp [step]) (by simp [step]) hg
+    | microTick => exact hkeep lo (by simpa [Mono] using hm) (by simp [flushTimes]) (by simp [step]) (by simp [step]) (by simp [step])
     | set during name bits =>
-      rcases hg with hg | hg
-      · simp only [step] at hg; split at hg <;> simp at hg
-      · refine hkeep lo (by simpa [Mono] using hm) (by simp [flushTimes]) (step j st (.set during name bits)).2 ?_ ?_ hg <;> (simp only [step]; split <;> rfl)
+      refine hkeep lo (by simpa [Mono] using hm) (by simp [flushTimes]) ?_ ?_ ?_ <;> (simp only [step]; split <;> rfl)
     | rst during name v =>
-      rcases hg with hg | hg
-      · simp only [step] at hg; split at hg <;> simp at hg
-      · refine hkeep lo (by simpa [Mono] using hm) (by simp [flushTimes]) (step j st (.rst during name v)).2 ?_ ?_ hg <;> (simp only [step]; split <;> rfl)
+      refine hkeep lo (by simpa [Mono] using hm) (by simp [flushTimes]) ?_ ?_ ?_ <;> (simp only [step]; split <;> rfl)
     | read name isBool bits =>
-      rcases hg with hg | hg
-      · simp only [step] at hg; split at hg <;> simp at hg
-      · refine hkeep lo (by simpa [Mono] using hm) (by simp [flushTimes]) (step j st (.read name isBool bits)).2 ?_ ?_ hg <;> (simp only [step]; split <;> rfl)
+      refine hkeep lo (by simpa [Mono] using hm) (by simp [flushTimes]) ?_ ?_ ?_ <;> (simp only [step]; split <;> rfl)
     | finish now =>
       simp only [Mono] at hm
-      exact hflush now hm.2 (by simp [flushTimes]) (step j st (.finish now)).2 (by simp [step, flush]) (by simp [step, flush]) (by simpa [step] using hg)
-    | newPhase after now =>
+      obtain ⟨_, rfl⟩ := hm
+      exact hflush (finishStop st now) 0 (by simp [Mono]) (by simp [flushTimes]) (by simp [step, flush]) (by simp [step, flush]) (by simp [step])
+    | newPhase ph now =>
       simp only [Mono] at hm
-      cases after with
-      | true => exact hflush now hm.2 (by simp [flushTimes]) (step j st (.newPhase true now)).2 (by simp [step, flush]) (by simp [step, flush]) (by simpa [step] using hg)
-      | false =>
-        rcases hg with hg | hg
-        · simp [step] at hg
-        · exact hkeep now hm.2 (by simp [flushTimes]) (step j st (.newPhase false now)).2 (by simp [step]) (by simp [step]) hg
+      cases ph with
+      | before => exact hkeep now hm.2 (by simp [flushTimes]) (by simp [step]) (by simp [step]) (by simp [step])
+      | during => exact hkeep now hm.2 (by simp [flushTimes]) (by simp [step]) (by simp [step]) (by simp [step])
+      | after =>
+        by_cases hp : st.pending = true
+        · exact hkeep now hm.2 (by simp [flushTimes, hp]) (by simp [step, hp]) (by simp [step, hp]) (by simp [step, hp])
+        · have hp' : st.pending = false := by simpa using hp
+          exact hflush now now hm.2 (by simp [flushTimes, hp']) (by simp [step, hp', flush]) (by simp [step, hp', flush]) (by simp [step, hp'])
 
 end Gatery.C20.TV
